@@ -152,13 +152,28 @@ CLAIMS["C17"] = {
             "delivery under all timings is a concurrency property outside this technique; HRX stubs",
     "technique": TECH,
 }
+CLAIMS["C20"] = {
+    "level": "other",
+    "text": "pbc_dist_coordinate and Distance/Distancevel/Position/Velocity/Dihedral/Puckering.calculate executed on symbolic "
+            "coordinates, velocities, box lengths, translations, image shifts (m in -2..2) and generator rotations (s^2 -> 1-c^2 "
+            "rewrite rule); sqrt/arctan2 kept exact (fresh variable with rule / opaque pair). For every feasible wrap pattern the "
+            "solver shows translation, image-shift and rotation invariance as identities of exact rational expressions, sign change "
+            "of velocity-type and invariance of position-type parameters under velocity reversal, equal results for 3- and 9-component "
+            "boxes, |minimum image| <= L/2 and whole-box corrections, and that calculate() leaves pos/vel/box element-wise untouched. "
+            "Bounded as stated in the evidence (puckering with one symbolic atom at a time).",
+    "design_ref": "DESIGN.md section 3 C20 (H20)",
+    "note": "exact reals for floats; orthogonal boxes; ties |d| = L/2 and degenerate geometries excluded; polynomials above degree 1 are "
+            "forked on without asking the solver (over-approximation, sound for 'holds'; counterexamples must replay); sqrt variable only "
+            "constrained >= 0 plus rewrite rule",
+    "technique": TECH,
+}
 PENDING = "check not built yet in this revision (see DESIGN.md for the plan); no claim is made"
 NOT_APPLICABLE = {
     "C01": "statistical convergence of a whole stochastic sampler: no bounded symbolic encoding; its algebraic obligations are decided under C02/C04/C09/C10/C11",
     "C08": "quantifies over crash positions in a trace of OS file-system effects and the outcome of TOML/path parsers on truncated trees: not symbolically executable with the installed tools (fault enumeration is a different technique family)",
     "C19": "every clause is a round trip through C-level text/binary codecs (str.format/float, struct, re, genfromtxt): not executable on symbolic data here",
 }
-for _p in ["C12", "C13", "C16", "C20"]:
+for _p in ["C12", "C13", "C16"]:
     if _p not in CLAIMS:
         NOT_APPLICABLE[_p] = PENDING
 NOTES = ("All checks: exit 0 held within the stated bounds; exit 1 + VIOLATION line only for a counterexample that was replayed "
